@@ -638,7 +638,7 @@ def directed_values(t):
 def generate(ctx):
     rng = ctx.rng
     batches = []
-    for b in range(ctx.n(1, 6)):
+    for b in range(ctx.n(1, 4)):
         nsig = ctx.n(56, 110)
         sigs = [gen_sig(rng, i) for i in range(nsig)]
         # directed: one signature per integer type echoing its argument, so every bound is exercised
